@@ -8,8 +8,8 @@ import json, os
 
 M = []
 
-def mut(id, prop, file, old, new, expect=None, silent=False, note="", old2="", new2=""):
-    M.append(dict(id=id, property=prop, file=file, old=old, new=new, old2=old2, new2=new2, expect=expect or [], silent=silent, note=note))
+def mut(id, prop, file, old, new, expect=None, silent=False, note="", old2="", new2="", file3="", old3="", new3=""):
+    M.append(dict(id=id, property=prop, file=file, old=old, new=new, old2=old2, new2=new2, file3=file3, old3=old3, new3=new3, expect=expect or [], silent=silent, note=note))
 
 # ---------------------------------------------------------------- C18
 mut("c18-comp-swap-pair", "C18", "nucleotide.go",
@@ -703,6 +703,40 @@ mut("c19-less-unwrap-hoisted", "C19", "location.go",
 
 mut("c08-loc-whole-reverted", "C08", "locator.go", "result, err := pars.Exact(parser).Parse(pars.FromString(s))", "result, err := parser.Parse(pars.FromString(s))", ["LOC-WHOLE|gts.tryLocation"], note="the repaired defect, reintroduced")
 mut("c08-loc-whole-silent-seq-end", "C08", "locator.go", "result, err := pars.Exact(parser).Parse(pars.FromString(s))", "whole := pars.Seq(parser, pars.End).Child(0)\n\tresult, err := whole.Parse(pars.FromString(s))", silent=True)
+
+# ---------------------------------------------------------------- refactoring round 2: argmax, two-level aliasing, source rewrites
+mut("c07-argmax-silent-append-form", "C07", "seqio/scanner.go", '\t\terrs := make([]struct {\n\t\t\terr error\n\t\t\tpos pars.Position\n\t\t}, len(sequenceParsers))\n\t\tfor i, p := range sequenceParsers {\n\t\t\ts.s.Push()\n\t\t\ts.res, errs[i].err = p.Parse(s.s)\n\t\t\tif errs[i].err == nil {\n\t\t\t\ts.s.Drop()\n\t\t\t\ts.p = p\n\t\t\t\treturn true\n\t\t\t}\n\t\t\terrs[i].pos = s.s.Position()\n\t\t\ts.s.Pop()\n\t\t}\n', '\t\ttype failure struct {\n\t\t\terr error\n\t\t\tpos pars.Position\n\t\t}\n\t\terrs := make([]failure, 0, len(sequenceParsers))\n\t\tfor _, p := range sequenceParsers {\n\t\t\tvar err error\n\t\t\ts.s.Push()\n\t\t\ts.res, err = p.Parse(s.s)\n\t\t\tif err == nil {\n\t\t\t\ts.s.Drop()\n\t\t\t\ts.p = p\n\t\t\t\treturn true\n\t\t\t}\n\t\t\terrs = append(errs, failure{err, s.s.Position()})\n\t\t\ts.s.Pop()\n\t\t}\n', silent=True,
+    note="the failures are collected by append, one per parser that did not match: errs is as long as the (non-empty) parser table when the loop is left")
+mut("c01-stateless-silent-append-form", "C01", "seqio/scanner.go", '\t\terrs := make([]struct {\n\t\t\terr error\n\t\t\tpos pars.Position\n\t\t}, len(sequenceParsers))\n\t\tfor i, p := range sequenceParsers {\n\t\t\ts.s.Push()\n\t\t\ts.res, errs[i].err = p.Parse(s.s)\n\t\t\tif errs[i].err == nil {\n\t\t\t\ts.s.Drop()\n\t\t\t\ts.p = p\n\t\t\t\treturn true\n\t\t\t}\n\t\t\terrs[i].pos = s.s.Position()\n\t\t\ts.s.Pop()\n\t\t}\n', '\t\ttype failure struct {\n\t\t\terr error\n\t\t\tpos pars.Position\n\t\t}\n\t\terrs := make([]failure, 0, len(sequenceParsers))\n\t\tfor _, p := range sequenceParsers {\n\t\t\tvar err error\n\t\t\ts.s.Push()\n\t\t\ts.res, err = p.Parse(s.s)\n\t\t\tif err == nil {\n\t\t\t\ts.s.Drop()\n\t\t\t\ts.p = p\n\t\t\t\treturn true\n\t\t\t}\n\t\t\terrs = append(errs, failure{err, s.s.Position()})\n\t\t\ts.s.Pop()\n\t\t}\n', silent=True,
+    note="errs holds errors that came out of the package-level parser table, but appending to errs writes only its own fresh array")
+mut("c07-argmax-append-skipped", "C07", "seqio/scanner.go", '\t\terrs := make([]struct {\n\t\t\terr error\n\t\t\tpos pars.Position\n\t\t}, len(sequenceParsers))\n\t\tfor i, p := range sequenceParsers {\n\t\t\ts.s.Push()\n\t\t\ts.res, errs[i].err = p.Parse(s.s)\n\t\t\tif errs[i].err == nil {\n\t\t\t\ts.s.Drop()\n\t\t\t\ts.p = p\n\t\t\t\treturn true\n\t\t\t}\n\t\t\terrs[i].pos = s.s.Position()\n\t\t\ts.s.Pop()\n\t\t}\n', '\t\ttype failure struct {\n\t\t\terr error\n\t\t\tpos pars.Position\n\t\t}\n\t\terrs := make([]failure, 0, len(sequenceParsers))\n\t\tfor _, p := range sequenceParsers {\n\t\t\tvar err error\n\t\t\ts.s.Push()\n\t\t\ts.res, err = p.Parse(s.s)\n\t\t\tif err == nil {\n\t\t\t\ts.s.Drop()\n\t\t\t\ts.p = p\n\t\t\t\treturn true\n\t\t\t}\n\t\t\tif s.s.Position().Line == 0 {\n\t\t\t\ts.s.Pop()\n\t\t\t\tcontinue\n\t\t\t}\n\t\t\terrs = append(errs, failure{err, s.s.Position()})\n\t\t\ts.s.Pop()\n\t\t}\n', ["IDX|seqio.Scanner.Scan|IDX#1"],
+    note="an iteration that skips the append: errs can be empty when the best failure is looked up")
+mut("c07-argmax-short-made", "C07", "seqio/scanner.go", "\t\t}, len(sequenceParsers))\n\t\tfor i, p := range sequenceParsers {", "\t\t}, len(sequenceParsers)-1)\n\t\tfor i, p := range sequenceParsers[1:] {",
+    ["IDX|seqio.Scanner.Scan|IDX#1"], note="errs one shorter than the table: empty for a one-parser table")
+mut("c01-stateless-two-level-write", "C01", "seqio/insdc.go",
+    "func IsQuotedQualifier(name string) bool {\n\treturn searchString(name, QuotedQualifierNames)\n}",
+    "func IsQuotedQualifier(name string) bool {\n\ttables := [][]string{QuotedQualifierNames}\n\tif len(tables[0]) > 0 && tables[0][0] == \"\" {\n\t\ttables[0][0] = name\n\t}\n\treturn searchString(name, QuotedQualifierNames)\n}",
+    ["STATELESS|gts/seqio.IsQuotedQualifier|QuotedQualifierNames"], note="a fresh container holding the package-level table: a store two dereferences down lands in the table")
+mut("c01-stateless-silent-container-write", "C01", "seqio/insdc.go",
+    "func IsQuotedQualifier(name string) bool {\n\treturn searchString(name, QuotedQualifierNames)\n}",
+    "func IsQuotedQualifier(name string) bool {\n\ttables := [][]string{QuotedQualifierNames}\n\ttables[0] = tables[0][:len(tables[0]):len(tables[0])]\n\treturn searchString(name, tables[0])\n}",
+    silent=True, note="a store into the fresh container itself touches no package-level memory")
+mut("c19-inline-silent-early-return-helper", "C19", "feature.go",
+    "\t\t\t\tfor _, v := range vv[1:] {\n\t\t\t\t\tif re.MatchString(v) {\n\t\t\t\t\t\treturn true\n\t\t\t\t\t}\n\t\t\t\t}\n",
+    "\t\t\t\tif matchAny(re, vv[1:]) {\n\t\t\t\t\treturn true\n\t\t\t\t}\n", silent=True,
+    old2="// Qualifier tests if any of the values", new2="func matchAny(re *regexp.Regexp, values []string) bool {\n\tfor _, v := range values {\n\t\tif re.MatchString(v) {\n\t\t\treturn true\n\t\t}\n\t}\n\treturn false\n}\n\n// Qualifier tests if any of the values",
+    note="a search loop extracted into a helper that returns early is inlined back before the rules look")
+mut("c19-inline-early-return-helper-wrong", "C19", "feature.go",
+    "\t\t\t\tfor _, v := range vv[1:] {\n\t\t\t\t\tif re.MatchString(v) {\n\t\t\t\t\t\treturn true\n\t\t\t\t\t}\n\t\t\t\t}\n",
+    "\t\t\t\tif matchAny(re, vv) {\n\t\t\t\t\treturn true\n\t\t\t\t}\n", ["VALUES-ONLY|gts.Qualifier|match#1"],
+    old2="// Qualifier tests if any of the values", new2="func matchAny(re *regexp.Regexp, values []string) bool {\n\tfor _, v := range values {\n\t\tif re.MatchString(v) {\n\t\t\treturn true\n\t\t}\n\t}\n\treturn false\n}\n\n// Qualifier tests if any of the values",
+    note="the same extraction, but the helper is handed the row with the qualifier name in it: the rules see through the helper")
+mut("c16-rename-silent-layout-helper", "C16", "seqio/origin.go", "func toOriginLength(length int) int {", "func formattedLength(length int) int {", silent=True,
+    old2="toOriginLength(length))", new2="formattedLength(length))", file3="seqio/genbank_subparsers.go", old3="toOriginLength(", new3="formattedLength(",
+    note="a renamed unexported anchor is found again by its signature and given its recorded name back before the rules look")
+mut("c16-rename-layout-helper-and-break", "C16", "seqio/origin.go", "func toOriginLength(length int) int {", "func formattedLength(length int) int {\n\tlength++",
+    ["LAYOUT"], old2="toOriginLength(length))", new2="formattedLength(length))", file3="seqio/genbank_subparsers.go", old3="toOriginLength(", new3="formattedLength(",
+    note="the renamed anchor is still analysed: a changed layout formula under the new name is reported")
 
 if __name__ == "__main__":
     here = os.path.dirname(os.path.abspath(__file__))
